@@ -26,6 +26,7 @@ type j2kCase struct {
 	K                int   // content family
 	Pix              []int `json:"pix,omitempty"` // explicit content (signed values)
 	PCRD, AppendLL   bool
+	Rates            []float64 `json:"rates,omitempty"` // explicit per-layer rate ladder (0 = everything that remains)
 }
 
 // j2kContent returns sample values (signed integers within the declared range).
@@ -73,6 +74,26 @@ func j2kContent(a j2kCase) []int {
 				for c := 0; c < a.C; c++ {
 					v := lo
 					if col>>uint(c)&1 == 1 {
+						v = hi
+					}
+					s[(y*a.W+x)*a.C+c] = v
+				}
+			}
+		}
+		return s
+	}
+	if a.K == 300 || a.K == 301 {
+		// flat with isolated +-1 samples at odd positions (300), or the same next to one full-scale sample (301): very few
+		// magnitude bit-planes in the fine bands, all of them (plus an isolated last-plane coefficient) in another block
+		mid := lo + span/2
+		for y := 0; y < a.H; y++ {
+			for x := 0; x < a.W; x++ {
+				for c := 0; c < a.C; c++ {
+					v := mid
+					if x%5 == 1 && y%7 == 3 && v+1 <= hi {
+						v++
+					}
+					if a.K == 301 && x == a.W/2 && y == a.H/2 {
 						v = hi
 					}
 					s[(y*a.W+x)*a.C+c] = v
@@ -143,6 +164,10 @@ func j2kParams(a j2kCase) *jpeg2000.EncodeParams {
 	p.Lossless = true
 	p.UsePCRDOpt = a.PCRD
 	p.AppendLosslessLayer = a.AppendLL
+	if a.Rates != nil {
+		p.LayerRates = append([]float64(nil), a.Rates...)
+		p.NumLayers = len(a.Rates)
+	}
 	return p
 }
 
@@ -578,6 +603,14 @@ func c19(c *eng.Ctx) {
 							for _, lv := range []int{0, 2, 5} {
 								ly := 1 + (tx+ty+lv)%3
 								jobs = append(jobs, j2kCase{W: w, H: h, C: nc, P: []int{8, 12, 16}[(tx+ty)%3], Levels: lv, CBW: 32, CBH: 32, Layers: ly, MCT: nc == 3, TileW: v[0], TileH: v[1], K: (tx + ty) % 2, PCRD: ly > 1, AppendLL: ly > 1})
+								// explicit rate ladders ending in the lossless layer (the measured, global allocation path)
+								if ly > 1 {
+									rates := []float64{3, 0}
+									if ly == 3 {
+										rates = []float64{20, 5, 0}
+									}
+									jobs = append(jobs, j2kCase{W: w, H: h, C: nc, P: 8, Levels: lv, CBW: 32, CBH: 32, Layers: ly, MCT: nc == 3, TileW: v[0], TileH: v[1], K: 1, Rates: rates})
+								}
 							}
 						}
 					}
@@ -601,6 +634,6 @@ func c19(c *eng.Ctx) {
 			}
 		}
 	}
-	runJ2K(c, "C19.roundtrip", jobs, j2kTileFn, "larger-tile-grids", fmt.Sprintf("w,h in %v, 1..8 x {1,2,3,8} tiles per axis, exact / odd / last-tile-1-wide tile sizes, comps {1,3}, levels {0,2,5}, layers 1..3 with global PCRD and final lossless layer", big), false)
+	runJ2K(c, "C19.roundtrip", jobs, j2kTileFn, "larger-tile-grids", fmt.Sprintf("w,h in %v, 1..8 x {1,2,3,8} tiles per axis, exact / odd / last-tile-1-wide tile sizes, comps {1,3}, levels {0,2,5}, layers 1..3 with global PCRD and final lossless layer, and with explicit rate ladders {3,0} / {20,5,0}", big), false)
 	c.Sample(map[string]any{"W": 7, "H": 5, "TileW": 3, "TileH": 2, "C": 3, "P": 12, "Levels": 2, "Layers": 2, "content": "16*y+x ramp"})
 }
